@@ -458,6 +458,39 @@ pub fn c03(rec: &mut Rec, rng: &mut Rng, thorough: bool) {
     for (k, lines, vlen) in [(150usize, 4usize, 200usize), (200, 1, 4)] {
         c11_many_rejections(rec, rng, k, lines, vlen);
     }
+    // the payload limit lowered (or raised) while a body is being staged: the declared length was admitted under
+    // the limit then in force; the rest of the body arrives in several more reads and the request is delivered
+    for k in 0..(if thorough { 600 } else { 60 }) {
+        rec.case("limit-changed-inside-body");
+        rec.nontrivial();
+        let n = *rng.pick(&[5usize, 40, 300, 1500, 4000]);
+        let mut d = ConnDriver::new(rec, 51200);
+        let mut bytes = format!("PUT /b HTTP/1.1\r\nContent-Length: {}\r\n\r\n", n).into_bytes();
+        let head = bytes.len();
+        bytes.extend_from_slice(&gen::body_bytes(rng, n));
+        // at least three reads inside the body
+        let pieces = rng.range(3, 6).min(n);
+        let mut cuts: Vec<usize> = (1..pieces).map(|j| head + j * n / pieces).collect();
+        if k % 2 == 0 {
+            cuts.insert(0, head);
+        }
+        cuts.dedup();
+        let chunks = gen::split_at_cuts(&bytes, &cuts);
+        let change_after = rng.range(1, chunks.len() - 1);
+        for (j, ch) in chunks.iter().enumerate() {
+            d.recv(rec, ch, 0);
+            if j + 1 == change_after {
+                let l = match k % 3 {
+                    0 => 0,
+                    1 => rng.below(n.max(1)),
+                    _ => n + rng.below(3),
+                };
+                d.set_limit(rec, l);
+            }
+        }
+        // (what is delivered is compared with the model; C03 itself only asks that no call panics — `recv` reports that)
+        d.popall(rec);
+    }
     // long op sequences on one connection, continuing after every kind of error
     let n_seq = if thorough { 6000 } else { 250 };
     for _ in 0..n_seq {
